@@ -5,5 +5,5 @@ CONSTANTS
   MaxSamples = 4
   MedianVals = {1, 2, 3, 5}
   MaxMedianOps = 7
-INVARIANTS MedianOfLastThree Conservation NoDivisionByZero LargestUnitThatFits SplitOK EmitCase
+INVARIANTS IsAnAverage MedianOfLastThree Conservation NoDivisionByZero LargestUnitThatFits SplitOK EmitCase
 CHECK_DEADLOCK FALSE
